@@ -179,6 +179,13 @@ package vm
 //@   ensures err == nil && old(m.Program.Instructions[m.P]) == program.OP_TAKE_ALWAYS ==> forall a machine.AccountAddress, x machine.Asset :: {netD(m.Stack, m.Postings, a, x)} {netD(old(m.Stack), old(m.Postings), a, x)} netD(m.Stack, m.Postings, a, x) == netD(old(m.Stack), old(m.Postings), a, x) - ((a == old(m.Stack)[len(old(m.Stack)) - 2].(machine.AccountAddress) && x == old(m.Stack)[len(old(m.Stack)) - 1].(machine.Monetary).Asset) ? val(old(m.Stack)[len(old(m.Stack)) - 1].(machine.Monetary).Amount) : 0)
 //@   ensures err == nil && old(m.Program.Instructions[m.P]) == program.OP_SAVE ==> forall a machine.AccountAddress, x machine.Asset :: {netD(m.Stack, m.Postings, a, x)} {netD(old(m.Stack), old(m.Postings), a, x)} netD(m.Stack, m.Postings, a, x) == netD(old(m.Stack), old(m.Postings), a, x)
 //@   ensures err == nil && old(m.Program.Instructions[m.P]) != program.OP_SAVE && !dropsFunding(old(m.Stack), old(m.Program.Instructions[m.P])) ==> forall a machine.AccountAddress, x machine.Asset :: {netD(m.Stack, m.Postings, a, x)} {netD(old(m.Stack), old(m.Postings), a, x)} (tracked(old(m.Balances), a, x) && a != "world") ==> bal(m.Balances, a, x) - bal(old(m.Balances), a, x) == netD(m.Stack, m.Postings, a, x) - netD(old(m.Stack), old(m.Postings), a, x)
+// OP_TAKE / OP_TAKE_MAX, exactly: the funding left on top of the stack carries the requested amount (TAKE) or as much of it as the source holds (TAKE_MAX), and TAKE_MAX reports what is missing
+//@   ensures err == nil && old(m.Program.Instructions[m.P]) == program.OP_TAKE ==> len(m.Stack) == len(old(m.Stack)) && is(m.Stack[len(m.Stack) - 1], machine.Funding) && total(m.Stack[len(m.Stack) - 1].(machine.Funding).Parts) == val(old(m.Stack)[len(old(m.Stack)) - 1].(machine.Monetary).Amount)
+//@   ensures err == nil && old(m.Program.Instructions[m.P]) == program.OP_TAKE_MAX ==> len(m.Stack) == len(old(m.Stack)) + 1 && is(m.Stack[len(m.Stack) - 1], machine.Funding) && total(m.Stack[len(m.Stack) - 1].(machine.Funding).Parts) == min(val(old(m.Stack)[len(old(m.Stack)) - 1].(machine.Monetary).Amount), total(old(m.Stack)[len(old(m.Stack)) - 2].(machine.Funding).Parts))
+//@   ensures err == nil && old(m.Program.Instructions[m.P]) == program.OP_TAKE_MAX ==> is(m.Stack[len(m.Stack) - 3], machine.Monetary) && m.Stack[len(m.Stack) - 3].(machine.Monetary).Asset == old(m.Stack)[len(old(m.Stack)) - 1].(machine.Monetary).Asset && val(m.Stack[len(m.Stack) - 3].(machine.Monetary).Amount) == max(0, val(old(m.Stack)[len(old(m.Stack)) - 1].(machine.Monetary).Amount) - total(old(m.Stack)[len(old(m.Stack)) - 2].(machine.Funding).Parts))
+// OP_SAVE, exactly: `save [A N] from @acc` lowers the tracked balance of (acc, A) by N, `save [A *] from @acc` lowers a positive one to 0, nothing else moves
+//@   ensures err == nil && old(m.Program.Instructions[m.P]) == program.OP_SAVE && is(old(m.Stack)[len(old(m.Stack)) - 2], machine.Monetary) ==> forall a machine.AccountAddress, x machine.Asset :: {bal(m.Balances, a, x)} {bal(old(m.Balances), a, x)} tracked(old(m.Balances), a, x) ==> bal(m.Balances, a, x) == bal(old(m.Balances), a, x) - ((a == old(m.Stack)[len(old(m.Stack)) - 1].(machine.AccountAddress) && x == old(m.Stack)[len(old(m.Stack)) - 2].(machine.Monetary).Asset) ? val(old(m.Stack)[len(old(m.Stack)) - 2].(machine.Monetary).Amount) : 0)
+//@   ensures err == nil && old(m.Program.Instructions[m.P]) == program.OP_SAVE && is(old(m.Stack)[len(old(m.Stack)) - 2], machine.Asset) ==> forall a machine.AccountAddress, x machine.Asset :: {bal(m.Balances, a, x)} {bal(old(m.Balances), a, x)} tracked(old(m.Balances), a, x) ==> bal(m.Balances, a, x) == ((a == old(m.Stack)[len(old(m.Stack)) - 1].(machine.AccountAddress) && x == old(m.Stack)[len(old(m.Stack)) - 2].(machine.Asset) && bal(old(m.Balances), a, x) > 0) ? 0 : bal(old(m.Balances), a, x))
 //@   ensures err == nil ==> m.P > old(m.P) && m.Program == old(m.Program) && m.Resources == old(m.Resources)
 //@   ensures err == nil && !finished ==> m.P < len(m.Program.Instructions)
 //@   loop 1:
